@@ -258,7 +258,12 @@ func decideOnEdge(cond ssa.Value, b, pred *ssa.BasicBlock) (bool, bool) {
 		if !ok || ph.Block() != b {
 			return valueFacts{}, false
 		}
-		return definitely(ph.Edges[idx], pred), true
+		k := definitely(ph.Edges[idx], pred)
+		if !(k.isNil || k.nonNil || k.isTrue || k.isFalse) {
+			// the test that ends pred decides it for this very edge
+			k = factFromTerminator(ph.Edges[idx], pred, b)
+		}
+		return k, true
 	}
 	switch c := cond.(type) {
 	case *ssa.BinOp:
@@ -304,4 +309,61 @@ func decideOnEdge(cond ssa.Value, b, pred *ssa.BasicBlock) (bool, bool) {
 		}
 	}
 	return false, false
+}
+
+// factFromTerminator: what the condition ending `pred` says about v on the edge
+// pred -> to (v == nil / v != nil / v / !v tested there).
+func factFromTerminator(v ssa.Value, pred, to *ssa.BasicBlock) valueFacts {
+	var k valueFacts
+	if len(pred.Instrs) == 0 || len(pred.Succs) != 2 || pred.Succs[0] == pred.Succs[1] {
+		return k
+	}
+	ifi, ok := pred.Instrs[len(pred.Instrs)-1].(*ssa.If)
+	if !ok {
+		return k
+	}
+	taken := pred.Succs[0] == to
+	if !taken && pred.Succs[1] != to {
+		return k
+	}
+	switch c := ifi.Cond.(type) {
+	case *ssa.BinOp:
+		if c.Op != token.EQL && c.Op != token.NEQ {
+			return k
+		}
+		var x ssa.Value
+		switch {
+		case isNilConst(c.Y):
+			x = c.X
+		case isNilConst(c.X):
+			x = c.Y
+		default:
+			return k
+		}
+		if x != v {
+			return k
+		}
+		if (c.Op == token.NEQ) == taken {
+			k.nonNil = true
+		} else {
+			k.isNil = true
+		}
+	case *ssa.UnOp:
+		if c.Op == token.NOT && c.X == v {
+			if taken {
+				k.isFalse = true
+			} else {
+				k.isTrue = true
+			}
+		}
+	default:
+		if ifi.Cond == v {
+			if taken {
+				k.isTrue = true
+			} else {
+				k.isFalse = true
+			}
+		}
+	}
+	return k
 }
